@@ -516,8 +516,8 @@ def check_generic(prop, tier, cfgs, n_quick, n_thorough, sigfun, stages, level="
 
 def core_cfgs(q):
     return [
-        ("core", gen.cfg_with(files=(1, 3), quarantine=q)),
-        ("core-many-files", gen.cfg_with(files=(3, 4), quarantine=q, complex_per_file=(1, 3))),
+        ("core", gen.cfg_with(files=(1, 3), quarantine=q, p_twin=0.3, own_ns_default=0.3)),
+        ("core-many-files", gen.cfg_with(files=(3, 4), quarantine=q, complex_per_file=(1, 3), own_ns_default=0.3)),
         ("core-keywords", gen.cfg_with(files=(1, 2), keyword_rate=0.35, quarantine=q)),
         ("wsdl", gen.cfg_with(files=(1, 3), wsdl=True, quarantine=q, complex_per_file=(0, 2), simple_per_file=(0, 2))),
     ]
@@ -571,7 +571,7 @@ def profiles(q):
         "restr": gen.cfg_with(files=(1, 3), wsdl=True, quarantine=q, simple_per_file=(3, 6), complex_per_file=(1, 3), avoid_nested_same_name=True,
                               elements_per_file=(0, 1), p_simple_derived=0.5, headers=(0, 2), ops=(1, 3), p_oneway=0.3),
         "ext": gen.cfg_with(files=(1, 3), quarantine=q, p_ext=0.75, complex_per_file=(3, 6), simple_per_file=(0, 2),
-                            elements_per_file=(0, 2), p_cross_file=0.6),
+                            elements_per_file=(0, 2), p_cross_file=0.6, own_ns_default=0.3),
         "ext-keywords": gen.cfg_with(files=(2, 3), quarantine=q, p_ext=0.75, complex_per_file=(3, 5), keyword_rate=0.25),
         "names": gen.cfg_with(files=(2, 4), quarantine=q, name_pool=pool, max_words=2, keyword_rate=0.0, reuse_names=True,
                               p_ref=0.45, p_ext=0.45, p_cross_file=0.7, elements_per_file=(1, 3), complex_per_file=(2, 4)),
@@ -579,9 +579,9 @@ def profiles(q):
                                    reuse_names=True, p_ref=0.4, p_cross_file=0.7, attr_named_simple=False, avoid_nested_same_name=True, ops=(1, 3),
                                    complex_per_file=(1, 2), simple_per_file=(0, 2), elements_per_file=(1, 2), p_part_name_differs=0.3),
         # a file and its twin (same layout and local names, other namespace and members), both read in one run
-        "names-twin": gen.cfg_with(files=(2, 3), quarantine=q, name_pool=pool, max_words=2, keyword_rate=0.0, reuse_names=True, p_twin=1.0,
+        "names-twin": gen.cfg_with(files=(2, 3), quarantine=q, name_pool=pool, max_words=2, keyword_rate=0.0, reuse_names=True, p_twin=1.0, own_ns_default=0.5,
                                    p_ref=0.5, p_ext=0.6, p_cross_file=0.15, elements_per_file=(1, 3), complex_per_file=(2, 4)),
-        "ext-twin": gen.cfg_with(files=(2, 3), quarantine=q, p_ext=0.8, complex_per_file=(3, 5), simple_per_file=(0, 1), p_twin=1.0,
+        "ext-twin": gen.cfg_with(files=(2, 3), quarantine=q, p_ext=0.8, complex_per_file=(3, 5), simple_per_file=(0, 1), p_twin=1.0, own_ns_default=0.5,
                                  elements_per_file=(0, 2), p_cross_file=0.15),
         "ns": gen.cfg_with(files=(2, 4), quarantine=q, adversarial_uris=True, nested_xmlns=0.4, complex_per_file=(1, 2),
                            simple_per_file=(1, 2), elements_per_file=(0, 1), p_cross_file=0.8, default_ns_own=0.4),
@@ -823,8 +823,8 @@ def run(prop, tier):
             nontrivial=lambda p: p.stats.get("ns_distinct_uris", 0) >= 2)
     elif prop in ("C03", "C04"):
         sigf = sig_c03 if prop == "C03" else sig_c04
-        check_generic(prop, tier, core_cfgs(q)[:3], 24, 600, sigf, ["static", "probe", stage_runtime], rule=(
-            "generator as C01 (XSD profiles); for every complex type and anonymous global element up to 4 sampled values "
+        check_generic(prop, tier, core_cfgs(q)[:3] + pick(q, "ext"), 32, 800, sigf, ["static", "probe", stage_runtime], rule=(
+            "generator as C01 (XSD profiles) plus the extension-forest profile of C08 (chains over several namespaces); for every complex type and anonymous global element up to 4 sampled values "
             "(minimal / full / many / boundary) are built as Rust literals of the emitted types and of independently written "
             "reference structs, serialized, deserialized from 5 independently rendered instance styles, re-serialized; all XML "
             "is compared as namespace-aware infosets (expat) with the expected infoset of the abstract value. A deviation that the "
